@@ -31,6 +31,79 @@ func (u *ExecUniverse) addCase(p wire.Path, doc wire.Value, vars []wire.Var) {
 	u.Cases = append(u.Cases, CaseRef{PI: n, DI: n, VI: n, Lax: p.Lax, Zone: "UTC"})
 }
 
+// c13Universe: every ordered pair of the numeric corpus under the five
+// operators, unary forms, operand-count / operand-type cases, unary operators
+// over sequences (shared with C05, whose subject is every input).
+func c13Universe(slots []slot) *ExecUniverse {
+	u := &ExecUniverse{}
+	ops := []string{"add", "sub", "mul", "div", "mod"}
+	for _, a := range slots {
+		la, va := operand(a, "a")
+		for _, b := range slots {
+			lb, vb := operand(b, "b")
+			vars := append(append([]wire.Var{}, va...), vb...)
+			for _, op := range ops {
+				u.addCase(wire.Path{Lax: true, Chain: []wire.Node{{K: "bin", Op: op, L: la, R: lb}}}, wire.Null(), vars)
+			}
+		}
+		// unary forms (a bare numeric literal operand would be folded by the parser)
+		if !a.Lit {
+			for _, op := range []string{"plus", "minus"} {
+				u.addCase(wire.Path{Lax: true, Chain: []wire.Node{{K: "un", Op: op, X: la}}}, wire.Null(), va)
+				u.addCase(wire.Path{Lax: false, Chain: []wire.Node{{K: "un", Op: "minus", X: []wire.Node{{K: "un", Op: op, X: la}}}}}, wire.Null(), va)
+			}
+			u.addCase(wire.Path{Lax: true, Chain: append(append([]wire.Node{}, la...), wire.Node{K: "method", Name: "abs"})}, wire.Null(), va)
+		}
+	}
+	// operand-count and operand-type errors, unary over sequences
+	one := wire.Int(1)
+	lit1 := []wire.Node{{K: "num", V: &one}}
+	root := []wire.Node{{K: "root"}}
+	all := []wire.Node{{K: "root"}, {K: "anyarr"}}
+	for _, doc := range []wire.Value{wire.Arr(), wire.Arr(wire.Float(1)), wire.Arr(wire.Float(1), wire.Float(2)), wire.Arr(wire.Float(1), wire.StrV("a")),
+		wire.Arr(wire.StrV("a"), wire.Float(1)), wire.Arr(wire.Arr(wire.Float(1), wire.Float(2))), wire.StrV("a"), wire.Null(), wire.Bool(true), wire.Float(2.5),
+		wire.Obj("a", wire.Float(1)), wire.Arr(wire.Float(1), wire.Null(), wire.Float(2))} {
+		for _, lax := range []bool{true, false} {
+			for _, op := range ops {
+				u.addCase(wire.Path{Lax: lax, Chain: []wire.Node{{K: "bin", Op: op, L: root, R: lit1}}}, doc, nil)
+				u.addCase(wire.Path{Lax: lax, Chain: []wire.Node{{K: "bin", Op: op, L: lit1, R: all}}}, doc, nil)
+				u.addCase(wire.Path{Lax: lax, Chain: []wire.Node{{K: "bin", Op: op, L: all, R: all}}}, doc, nil)
+			}
+			for _, op := range []string{"plus", "minus"} {
+				u.addCase(wire.Path{Lax: lax, Chain: []wire.Node{{K: "un", Op: op, X: root}}}, doc, nil)
+				u.addCase(wire.Path{Lax: lax, Chain: []wire.Node{{K: "un", Op: op, X: all}}}, doc, nil)
+			}
+		}
+	}
+	// unary operators over several items, followed by a filter or method that
+	// rejects / accepts items at different positions
+	two := wire.Int(-2)
+	m1 := wire.Int(-1)
+	m3 := wire.Int(-3)
+	cur := []wire.Node{{K: "cur"}}
+	flt := func(op string, v wire.Value) wire.Node {
+		vv := v
+		p := wire.Node{K: "bin", Op: op, L: cur, R: []wire.Node{{K: "num", V: &vv}}}
+		return wire.Node{K: "filter", P: &p}
+	}
+	for _, doc := range []wire.Value{wire.Arr(wire.Float(1), wire.Float(2), wire.Float(3.5), wire.Float(4)), wire.Arr(wire.Float(4), wire.Float(1)),
+		wire.Arr(wire.Float(2)), wire.Arr(), wire.Arr(wire.Float(1), wire.StrV("a"), wire.Float(3)), wire.Obj("a", wire.Arr(wire.Float(1), wire.Float(2), wire.Float(3)))} {
+		for _, lax := range []bool{true, false} {
+			for _, uop := range []string{"minus", "plus"} {
+				for _, operandChain := range [][]wire.Node{all, {{K: "root"}, {K: "key", S: wire.Bytes("a")}, {K: "anyarr"}}} {
+					h := wire.Node{K: "un", Op: uop, X: operandChain}
+					for _, tail := range []wire.Node{flt("lt", m1), flt("ne", two), flt("lt", m3), flt("gt", wire.Int(0)), {K: "method", Name: "abs"}, {K: "method", Name: "type"}, {K: "method", Name: "string"}} {
+						u.addCase(wire.Path{Lax: lax, Chain: []wire.Node{h, tail}}, doc, nil)
+						ex := wire.Node{K: "un", Op: "exists", X: []wire.Node{h, tail}}
+						u.addCase(wire.Path{Lax: lax, Pred: true, Chain: []wire.Node{ex}}, doc, nil)
+					}
+				}
+			}
+		}
+	}
+	return u
+}
+
 func init() {
 	checks["C13"] = func(rc *RunCtx) {
 		rc.Ev.Assumptions = stdAssumptions
@@ -41,72 +114,7 @@ func init() {
 		if slots == nil {
 			return
 		}
-		u := &ExecUniverse{}
-		ops := []string{"add", "sub", "mul", "div", "mod"}
-		for _, a := range slots {
-			la, va := operand(a, "a")
-			for _, b := range slots {
-				lb, vb := operand(b, "b")
-				vars := append(append([]wire.Var{}, va...), vb...)
-				for _, op := range ops {
-					u.addCase(wire.Path{Lax: true, Chain: []wire.Node{{K: "bin", Op: op, L: la, R: lb}}}, wire.Null(), vars)
-				}
-			}
-			// unary forms (a bare numeric literal operand would be folded by the parser)
-			if !a.Lit {
-				for _, op := range []string{"plus", "minus"} {
-					u.addCase(wire.Path{Lax: true, Chain: []wire.Node{{K: "un", Op: op, X: la}}}, wire.Null(), va)
-					u.addCase(wire.Path{Lax: false, Chain: []wire.Node{{K: "un", Op: "minus", X: []wire.Node{{K: "un", Op: op, X: la}}}}}, wire.Null(), va)
-				}
-				u.addCase(wire.Path{Lax: true, Chain: append(append([]wire.Node{}, la...), wire.Node{K: "method", Name: "abs"})}, wire.Null(), va)
-			}
-		}
-		// operand-count and operand-type errors, unary over sequences
-		one := wire.Int(1)
-		lit1 := []wire.Node{{K: "num", V: &one}}
-		root := []wire.Node{{K: "root"}}
-		all := []wire.Node{{K: "root"}, {K: "anyarr"}}
-		for _, doc := range []wire.Value{wire.Arr(), wire.Arr(wire.Float(1)), wire.Arr(wire.Float(1), wire.Float(2)), wire.Arr(wire.Float(1), wire.StrV("a")),
-			wire.Arr(wire.StrV("a"), wire.Float(1)), wire.Arr(wire.Arr(wire.Float(1), wire.Float(2))), wire.StrV("a"), wire.Null(), wire.Bool(true), wire.Float(2.5),
-			wire.Obj("a", wire.Float(1)), wire.Arr(wire.Float(1), wire.Null(), wire.Float(2))} {
-			for _, lax := range []bool{true, false} {
-				for _, op := range ops {
-					u.addCase(wire.Path{Lax: lax, Chain: []wire.Node{{K: "bin", Op: op, L: root, R: lit1}}}, doc, nil)
-					u.addCase(wire.Path{Lax: lax, Chain: []wire.Node{{K: "bin", Op: op, L: lit1, R: all}}}, doc, nil)
-					u.addCase(wire.Path{Lax: lax, Chain: []wire.Node{{K: "bin", Op: op, L: all, R: all}}}, doc, nil)
-				}
-				for _, op := range []string{"plus", "minus"} {
-					u.addCase(wire.Path{Lax: lax, Chain: []wire.Node{{K: "un", Op: op, X: root}}}, doc, nil)
-					u.addCase(wire.Path{Lax: lax, Chain: []wire.Node{{K: "un", Op: op, X: all}}}, doc, nil)
-				}
-			}
-		}
-		// unary operators over several items, followed by a filter or method that
-		// rejects / accepts items at different positions
-		two := wire.Int(-2)
-		m1 := wire.Int(-1)
-		m3 := wire.Int(-3)
-		cur := []wire.Node{{K: "cur"}}
-		flt := func(op string, v wire.Value) wire.Node {
-			vv := v
-			p := wire.Node{K: "bin", Op: op, L: cur, R: []wire.Node{{K: "num", V: &vv}}}
-			return wire.Node{K: "filter", P: &p}
-		}
-		for _, doc := range []wire.Value{wire.Arr(wire.Float(1), wire.Float(2), wire.Float(3.5), wire.Float(4)), wire.Arr(wire.Float(4), wire.Float(1)),
-			wire.Arr(wire.Float(2)), wire.Arr(), wire.Arr(wire.Float(1), wire.StrV("a"), wire.Float(3)), wire.Obj("a", wire.Arr(wire.Float(1), wire.Float(2), wire.Float(3)))} {
-			for _, lax := range []bool{true, false} {
-				for _, uop := range []string{"minus", "plus"} {
-					for _, operandChain := range [][]wire.Node{all, {{K: "root"}, {K: "key", S: wire.Bytes("a")}, {K: "anyarr"}}} {
-						h := wire.Node{K: "un", Op: uop, X: operandChain}
-						for _, tail := range []wire.Node{flt("lt", m1), flt("ne", two), flt("lt", m3), flt("gt", wire.Int(0)), {K: "method", Name: "abs"}, {K: "method", Name: "type"}, {K: "method", Name: "string"}} {
-							u.addCase(wire.Path{Lax: lax, Chain: []wire.Node{h, tail}}, doc, nil)
-							ex := wire.Node{K: "un", Op: "exists", X: []wire.Node{h, tail}}
-							u.addCase(wire.Path{Lax: lax, Pred: true, Chain: []wire.Node{ex}}, doc, nil)
-						}
-					}
-				}
-			}
-		}
+		u := c13Universe(slots)
 		rc.cov("exhaustive", true)
 		rc.cov("rule", "boundary corpus of 25 numbers (0, +-1, +-2, 3, 7, 10, int32/int64 limits and neighbours, 2^53 neighbours, 1/2, 3/2, -5/2, 2^63, -2^63-1, 1e308, 5e-324) each in every Go representation (int64 literal, float64, json.Number) -> every ordered pair x {+ - * / %}, unary + - and -(-x) and .abs() on each, plus operand-count / operand-type cases and unary operators over sequences; every result judged against the exact arithmetic of spec/Num.tla (BigNum), and the + and * matrices judged for symmetry on the real results")
 		rc.cov("corpus_size", len(slots))
